@@ -176,14 +176,17 @@ def run_case(case):
         # --- a stochastic engine works in molecules internally: its output must still come back in the requested units ---
         if k % 2 == 0 and float(state.sum()) < 1e7:
             try:
-                sc2 = script.copy()
-                sc2.rng_seed = 11
+                sc2 = script            # the very same object is handed to the Euler engine below: an engine must not
+                sc2.rng_seed = 11       # leave its own working units (molecules) behind in the caller's script
                 g = engines.get("gillespie")
                 g.setup(sc2)
                 g.iterate_n(5)
                 og = g.get_output()
                 g.finalize()
                 cnt("stochastic_output_unit_checks")
+                if si.sys_of(script.units_system) != tuple(info["script_units"]):
+                    bad.append({"what": "running a stochastic engine changed the units system of the caller's script object",
+                                "rendering": k, "got": si.sys_of(script.units_system), "expected": info["script_units"], **ctx})
                 if si.sys_of(og.data.units.sys)[2] != info["script_units"][2] or si.sys_of(og.t.units.sys)[1] != info["script_units"][1]:
                     bad.append({"what": "stochastic trajectory is not reported in the requested output units", "rendering": k,
                                 "got": [si.sys_of(og.t.units.sys)[1], si.sys_of(og.data.units.sys)[2]], "expected": info["script_units"], **ctx})
